@@ -408,6 +408,29 @@ def sx_abs(x):
     return builtins.abs(x)
 
 
+class _OsShim:
+    """`os` whose urandom() returns symbolic bytes (an arbitrary value of its type)."""
+
+    def __getattr__(self, name):
+        import os
+
+        return getattr(os, name)
+
+    @staticmethod
+    def urandom(n):
+        import os
+
+        if not core.active():
+            return os.urandom(n)
+        n = concretize_int(n)
+        if n < 0:
+            raise ValueError("negative argument not allowed")
+        return core.cur().bytes("urandom#", n)
+
+
+os_shim = _OsShim()
+
+
 # ------------------------------------------------------------------------------- crc32c
 class CrcUF:
     """crc32c as an uninterpreted-but-deterministic function (Ackermann expansion)."""
